@@ -6,7 +6,9 @@ the Rust code (overflow-checked arithmetic, `assert!`, `expect`) or when the ora
 ill-shaped.  `Total.FramesLogOk` says the log has the SHAPE the encoder consumes for this input (the `est`
 events of the `ApproxEnt` fixed stage, then the `qlpc` event of the LPC stage, sub-frame after sub-frame,
 the two extra sub-frames of the stereo trial included), so that `none` can only mean a panic site.  The
-theorems below say: with a log of the right shape whose parameter sets satisfy `OEvent.Ok`, there is none.
+theorems below say: with a log of the right shape whose parameter sets satisfy `OEvent.Ok` (in particular: at
+most `maxLpcOrder = 24` coefficients, the capacity of the LPC warm-up vector — a panic site of the code and of the
+model, `C07_lpcCandidate_over_capacity`), there is none.
 
 Nothing else is asked of the quantised LPC parameter sets (the former hypothesis `LpcSafe` is gone): under
 its new guard `maxabs·(Σ|coef| + 1) < i32::MAX` the checked `i32` path of `compute_error` never overflows
@@ -56,14 +58,26 @@ theorem C07_computeError_flag (coefs : List Int) (shift : Nat) (xs errors : List
   computeError_flag_iff coefs shift xs errors fits h
 
 /-- **The LPC stage never panics.** For a block of `64 ≤ n < 2^16` samples and ANY parameter set of at most
-64 coefficients, `estimated_qlpc` (`compute_error`, Rice parameter search with `encode_signbit`, residual
-construction) consumes its `qlpc` event and returns; it returns a candidate iff every value of the exact
+`maxLpcOrder = 24` coefficients (`qlpc::MAX_ORDER`, the capacity of the warm-up vector of an `Lpc` sub-frame),
+`estimated_qlpc` (`compute_error`, Rice parameter search with `encode_signbit`, residual construction, warm-up
+vector) consumes its `qlpc` event and returns; it returns a candidate iff every value of the exact
 LPC residual is a FLAC residual, and drops the candidate otherwise. (Replaces `C07_LpcSafe_exact`.) -/
 theorem C07_lpcCandidate_total (cfg : SubCfg) (xs : List Int) (bps : Nat) (c : List Int) (s : Int) (p : Nat)
-    (rest : List OEvent) (hn : 64 ≤ xs.length) (hlen : xs.length < 2 ^ 16) (hc : c.length ≤ 64) :
+    (rest : List OEvent) (hn : 64 ≤ xs.length) (hlen : xs.length < 2 ^ 16) (hc : c.length ≤ maxLpcOrder) :
     ∃ f, lpcCandidate cfg xs bps (.qlpc c s p :: rest) = some (f, rest) ∧
       (f.isSome = true ↔ ∀ e ∈ lpcResidual c s.toNat xs, e.natAbs ≤ 2 ^ 31 - 1) :=
   lpcCandidate_total cfg xs bps c s p rest hn hlen hc
+
+/-- **The bound 24 is exact**: with more than `maxLpcOrder = 24` coefficients (a parameter set `OEvent.Ok` excludes; the
+quantiser returns at most `lpc_order ≤ 24` coefficients under a verified configuration) `estimated_qlpc` panics
+whenever the exact LPC residual is a FLAC residual — in `encode_residual`, or else at
+`heapless::Vec::from_slice(..).expect("LPC order exceeded the maximum")` — and drops the candidate otherwise, for
+ANY block. -/
+theorem C07_lpcCandidate_over_capacity (cfg : SubCfg) (xs : List Int) (bps : Nat) (c : List Int) (s : Int) (p : Nat)
+    (rest : List OEvent) (hc : maxLpcOrder < c.length) :
+    lpcCandidate cfg xs bps (.qlpc c s p :: rest) =
+      if ∀ e ∈ lpcResidual c s.toNat xs, e.natAbs ≤ 2 ^ 31 - 1 then none else some (none, rest) :=
+  lpcCandidate_over_capacity cfg xs bps c s p rest hc
 
 /-! ### the witnesses on which the code before the fix reached a panic site -/
 
@@ -277,6 +291,16 @@ example : ∃ s, encodeSubframe ⟨true, true, true, 4, true, 14⟩ minBlock 24 
   C07_subframe_total ⟨true, true, true, 4, true, 14⟩ minBlock 24 [.qlpc [-16384] 0 15] (by decide) (by decide)
     (by decide) (by decide)
     (Or.inr (Or.inr ⟨by decide, (by intro e he; cases he), fun _ => ⟨[-16384], 0, 15, rfl⟩⟩))
+
+set_option maxRecDepth 100000 in
+/-- The capacity of the LPC warm-up vector: 24 coefficients pass (`OEvent.Ok`, an LPC candidate is returned), 25 panic
+(not `OEvent.Ok`; `C07_lpcCandidate_over_capacity`). -/
+example : OEvent.Ok (.qlpc (List.replicate 24 0) 0 1) ∧ ¬ OEvent.Ok (.qlpc (List.replicate 25 0) 0 1) ∧
+    ((lpcCandidate ⟨true, true, true, 4, true, 14⟩ smooth64 16 [.qlpc (List.replicate 24 0) 0 1]).map
+      fun r => (r.1.map kindOf, r.2)) = some (some 3, []) ∧
+    lpcCandidate ⟨true, true, true, 4, true, 14⟩ smooth64 16 [.qlpc (List.replicate 25 0) 0 1] = none ∧
+    encodeSubframe ⟨true, true, true, 4, true, 14⟩ smooth64 16 [.qlpc (List.replicate 25 0) 0 1] = none := by
+  decide +kernel
 
 /-- The default configuration (LPC order 10, `ApproxEnt`, block size 4096) is accepted, and its
 integer-relevant part is the `SubCfg` the model runs with. -/
